@@ -225,7 +225,7 @@ func (eng *Engine) newFEnc(fn *ssa.Function, prop string) *FEnc {
 		factDone: map[string]bool{}, loops: map[*ssa.BasicBlock]*loopInfo{}, domDepth: map[*ssa.BasicBlock]int{},
 		epochPreds: map[int][]epochEdge{}, heapSorts: map[string]string{}, heapDeclared: map[string]bool{},
 		safetyCount: map[string]int{}, usedGhost: map[string]bool{}, prop: prop,
-		parts: map[string]*Obligation{}, atCallHits: map[*Clause]int{}, calleesUsed: map[string]*FuncContract{}, rangeGhost: map[*ssa.Range]int{}}
+		parts: map[string]*Obligation{}, atCallHits: map[*Clause]int{}, calleesUsed: map[string]*FuncContract{}, rangeGhost: map[*ssa.Range]int{}, catParts: map[string][]string{}, catCache: map[string]string{}}
 	if fn != nil {
 		e.fc = eng.contractOf(fn)
 	}
